@@ -2,6 +2,7 @@
 generators, runner, Coq emitter and the property's own oracle."""
 import numpy as np
 from harness.driver import call_impl, cz, cnat, cbool, czlist, cgrid, clist, cres
+from harness import twins
 from harness.twins import Scribble, make_rule, coq_rule_spec
 
 ID = 'C01'
@@ -23,6 +24,10 @@ NOTES = ['every (N, r) with 1 <= r <= N <= 8 (thorough: <= 12), every T in 1..4,
          'DECIDED BY THE PYTHON ORACLE: bitwise comparison with an independent reference ring update in c01.py '
          '(_reference_rows), all three memoize modes for pure rules, both timesteps forms; an exception is a failure',
          'every case: np.geterr() after the call must equal NumPy\'s default error state',
+         'stream dress/<how>/...: the rule callable (and the timesteps predicate) is handed to evolve in every shape of '
+         'twins.RULE_DRESSINGS / PRED_DRESSINGS (8 cases each in quick: Script / LinCT / Lin / Aff, r = 1 and larger, '
+         'fixed and callable, H in 1..3, one scribbling, one float-valued); the dressing is the outermost wrapper, the '
+         'exact log sits inside; the model ignores the dressing (same behaviour)',
          'stream scribble: the rule overwrites its neighbourhood argument in place after computing its value '
          '(twins.Scribble); the model passes values, so the model-side rule is the underlying one']
 ASSUMPTIONS = ['rule results are representable in the automaton dtype (out-of-range results are outside the property)',
@@ -358,6 +363,27 @@ def generate(rng, tier):
         yield {'kind': 'bigint/%s/%s/%s' % (dtype, fam, 'callable' if dyn else 'fixed'), 'dyn': dyn, 'scale': 1,
                'dtype': dtype, 'hist': [[_bigcell(rng, dtype) for _ in range(N)] for _ in range(H)], 'T': T, 'r': r,
                'rule': _bigrule(rng, fam, N, r, T, dtype), 'log': True}
+    # (8) dressings: the same evolutions with the rule callable (and the timesteps predicate) handed over in another
+    #     SHAPE (*args, functools.partial, bound method, lambda, subclass of a library rule class, ...) or returning
+    #     another Python TYPE for the same value (0-d array, NumPy scalar, Python int).  Behaviour is unchanged, so the
+    #     Coq side ignores the dressing; the library must call exactly what it was given, positionally, once per cell.
+    reps = 1 if tier == 'quick' else 5
+    for _ in range(reps):
+        for di, how in enumerate(twins.RULE_DRESSINGS):
+            for k in range(8):
+                fam = ['script', 'linct', 'script', 'linct', 'lin', 'aff', 'script', 'linct'][k]
+                dyn = k % 2 == 1
+                N = rng.randint(1, 9)
+                r = 1 if k < 4 else rng.randint(1, N)       # r = 1: the elementary-rule radius (fast paths live there)
+                T = rng.randint(2, 4)
+                scale = 4 if k == 7 else 1
+                dtype = rng.choice(['int32', 'int64', 'uint8']) if scale != 1 else rng.choice(DTYPES)
+                c = _case(rng, 'dress/%s/%s/%s' % (how, fam, 'callable' if dyn else 'fixed'), N, r, T, 1 + k % 3, dtype, fam,
+                          dyn, scale=scale, scribble=(k == 6))
+                c['dress'] = how
+                if dyn:
+                    c['pdress'] = twins.PRED_DRESSINGS[(di + k // 2) % len(twins.PRED_DRESSINGS)]
+                yield c
     # (7) oracle-only: float overflow / underflow and signed zeros (outside the Z-valued model)
     for c in _float_cases(rng, tier):
         yield c
@@ -407,9 +433,10 @@ def run_impl(c):
     if c.get('scribble'):
         base = Scribble(base)
     rule = StrictLogged1(base)
+    handed = twins.dress(rule, c.get('dress'))      # outermost: the library sees the dressed object, the log is inside
     T = c['T']
-    ts = (lambda ca_, t: t < T) if c['dyn'] else T
-    res = call_impl(lambda: cpl.evolve(ca, timesteps=ts, apply_rule=rule, r=c['r'], memoize=False))
+    ts = twins.dress_pred(lambda ca_, t: t < T, c.get('pdress')) if c['dyn'] else T
+    res = call_impl(lambda: cpl.evolve(ca, timesteps=ts, apply_rule=handed, r=c['r'], memoize=False))
     if res[0] != 'ok':
         return list(res) + [{'geterr': dict(np.geterr())}]
     out = np.asarray(res[1])
@@ -560,6 +587,8 @@ def shrink(c):
         yield rebuild(hist, T, r - 1)
     if c['dtype'] not in ('int64', 'uint8', 'uint64'):
         yield dict(c, dtype='int64')
+    if c.get('dress') or c.get('pdress'):
+        yield dict(c, dress=None, pdress=None)
     if c['rule']['fam'] != 'script' and c['scale'] == 1:
         yield rebuild(hist, T, r, {'fam': 'script', 'vs': list(range(1, N * (T - 1) + 1))})
 
